@@ -420,6 +420,56 @@ Definition eval_int (checks : bool) (fuel : nat) (ps : list (pair str)) : res Z 
   pratt prec_of is_left int_prim (int_infix checks) fuel ps.
 
 (* ------------------------------------------------------------------ *)
+(** * The classes of expression trees on which integer evaluation is known to
+      crash or to leave wrap-around arithmetic (decidable; used by Known_C19) *)
+
+Inductive kclass :=
+| KLit        (* a literal that [parse::<i64>] rejects: out of range, or with an exponent part *)
+| KPowNeg     (* an exponent below zero: [as u32] turns it into a huge exponent *)
+| KPowTrunc   (* an exponent of 2^32 or more: [as u32] drops the high bits *)
+| KPowOvf.    (* the exact power is outside i64: panics when overflow checks are on *)
+
+(** the value the release arithmetic gives (total; 0 under an unreadable literal) *)
+Fixpoint tv (t : tree str) : Z :=
+  match t with
+  | Leaf s => match parse_i64 s with Some z => z | None => 0 end
+  | Node o a b => match int_infix false (tv a) o (tv b) with Ok v => v | _ => 0 end
+  end.
+
+(** is a^b inside i64, for 0 <= b (decided without computing huge powers) *)
+Definition pow_in_range (a b : Z) : bool :=
+  if Z.abs a <=? 1 then true
+  else if 64 <=? b then false
+  else in_i64 (a ^ b).
+
+Fixpoint classes (checks : bool) (t : tree str) : list kclass :=
+  match t with
+  | Leaf s => match parse_i64 s with Some _ => [] | None => [KLit] end
+  | Node o a b =>
+    classes checks a ++ classes checks b ++
+    match o with
+    | Pow =>
+      if tv b <? 0 then [KPowNeg]
+      else if 2 ^ 32 <=? tv b then [KPowTrunc]
+      else if checks && negb (pow_in_range (tv a) (tv b)) then [KPowOvf]
+      else []
+    | _ => []
+    end
+  end.
+
+(** the classes of a line (empty in float mode and for lines that are not parsed) *)
+Definition line_classes (checks : bool) (line : str) : list kclass :=
+  match parse_calc line with
+  | POk ps =>
+    if existsb (fun c => (c =? 46)%N) line then []
+    else match pratt_tree (2 * tot ps + 1) ps with
+         | Ok t => classes checks t
+         | _ => []
+         end
+  | _ => []
+  end.
+
+(* ------------------------------------------------------------------ *)
 (** * run_calculator *)
 
 Inductive calc_result :=
